@@ -4,9 +4,13 @@
 
 package config_parser
 
+// pstr: the textual form of a key:value pair as printed by Param.String (an abstraction: the contract
+// below is trusted, and callers may assume that the form determines key and value)
+//@ specfn pstr(k string, v string, a bool, b bool) string
 //@ func (*Param).String
 //@   pure
 //@   trusted
+//@   ensures result == pstr(p.Key, p.Val, compact, quoteVal)
 //@ func (*Function).String
 //@   pure
 //@   trusted
